@@ -2785,6 +2785,84 @@ fn early_fail_back_battery(_a: &mut Vec<i128>) -> String {
 	format!("{} {}", bad, total)
 }
 
+/// dup_hash_onchain_probe: A -> B -> C -> D and A -> B -> C -> E carry two HTLCs with the SAME payment hash over B-C. C
+/// learns the preimage from E, C's commitment confirms and C claims both HTLC outputs with the preimage, both HTLC-Success
+/// transactions confirming in ONE block on B's chain. Output: the number of `PaymentForwarded { claim_from_onchain_tx }`
+/// events B raises - 2, one per inbound HTLC it must now claim from A (ported from the demonstration of seeded change
+/// C02r7-m3).
+fn dup_hash_onchain_probe(_a: &mut Vec<i128>) -> String {
+	use lightning::events::{ClosureReason, Event};
+	use lightning::ln::channelmanager::PaymentId;
+	use lightning::ln::msgs::ChannelMessageHandler;
+	use lightning::routing::router::PaymentParameters;
+	let chanmon_cfgs = create_chanmon_cfgs(5);
+	let node_cfgs = create_node_cfgs(5, &chanmon_cfgs);
+	let mut config = test_legacy_channel_config();
+	config.channel_config.forwarding_fee_base_msat = 196;
+	let configs = [Some(config.clone()), Some(config.clone()), Some(config.clone()), Some(config.clone()), Some(config.clone())];
+	let node_chanmgrs = create_node_chanmgrs(5, &node_cfgs, &configs);
+	let nodes = create_network(5, &node_cfgs, &node_chanmgrs);
+	let node_b_id = nodes[1].node.get_our_node_id();
+	let node_c_id = nodes[2].node.get_our_node_id();
+	let node_e_id = nodes[4].node.get_our_node_id();
+	create_announced_chan_between_nodes(&nodes, 0, 1);
+	let chan_2 = create_announced_chan_between_nodes(&nodes, 1, 2);
+	create_announced_chan_between_nodes(&nodes, 2, 3);
+	create_announced_chan_between_nodes(&nodes, 2, 4);
+	let (our_payment_preimage, dup_payment_hash, ..) = route_payment(&nodes[0], &[&nodes[1], &nodes[2], &nodes[3]], 900_000);
+	let (payment_secret, _) = nodes[4].node.create_inbound_payment_for_hash(dup_payment_hash, None, 7200, None, None).unwrap();
+	let payment_params = PaymentParameters::from_node_id(node_e_id, TEST_FINAL_CLTV)
+		.with_bolt11_features(nodes[4].node.bolt11_invoice_features())
+		.unwrap();
+	let (route, _, _, _) = lightning::get_route_and_payment_hash!(nodes[0], nodes[4], payment_params, 800_000);
+	let path: &[&[_]] = &[&[&nodes[1], &nodes[2], &nodes[4]]];
+	send_along_route_with_secret(&nodes[0], route, path, 800_000, dup_payment_hash, payment_secret);
+	let _ = PaymentId([0; 32]);
+	let commitment_txn = lightning::get_local_commitment_txn!(nodes[2], chan_2.2);
+	nodes[4].node.claim_funds(our_payment_preimage);
+	let _ = nodes[4].node.get_and_clear_pending_events();
+	check_added_monitors(&nodes[4], 1);
+	let mut updates = get_htlc_update_msgs(&nodes[4], &node_c_id);
+	nodes[2].node.handle_update_fulfill_htlc(node_e_id, updates.update_fulfill_htlcs.remove(0));
+	let _cs_updates = get_htlc_update_msgs(&nodes[2], &node_b_id);
+	let _ = nodes[2].node.get_and_clear_pending_events();
+	check_added_monitors(&nodes[2], 1);
+	do_commitment_signed_dance(&nodes[2], &nodes[4], &updates.commitment_signed, false, false);
+	mine_transaction(&nodes[2], &commitment_txn[0]);
+	check_closed_broadcast(&nodes[2], 1, true);
+	check_added_monitors(&nodes[2], 1);
+	check_closed_event(&nodes[2], 1, ClosureReason::CommitmentTxConfirmed, &[node_b_id], 100000);
+	let htlc_success_txn: Vec<_> = nodes[2].tx_broadcaster.txn_broadcasted.lock().unwrap().clone();
+	assert_eq!(htlc_success_txn.len(), 2);
+	mine_transaction(&nodes[1], &commitment_txn[0]);
+	check_closed_broadcast(&nodes[1], 1, true);
+	check_added_monitors(&nodes[1], 1);
+	check_closed_event(&nodes[1], 1, ClosureReason::CommitmentTxConfirmed, &[node_c_id], 100000);
+	mine_transactions(&nodes[1], &[&htlc_success_txn[0], &htlc_success_txn[1]]);
+	let events = nodes[1].node.get_and_clear_pending_events();
+	let forwarded = events.iter().filter(|ev| matches!(ev, Event::PaymentForwarded { claim_from_onchain_tx: true, .. })).count();
+	nodes[1].chain_monitor.added_monitors.lock().unwrap().clear();
+	let _ = nodes[1].node.get_and_clear_pending_msg_events();
+	for n in 0..5 {
+		nodes[n].tx_broadcaster.txn_broadcasted.lock().unwrap().clear();
+	}
+	core::mem::forget(nodes);
+	format!("{}", forwarded)
+}
+
+/// onchain_dedup_battery: dup_hash_onchain_probe must report 2. Output: `<bad> <total>`.
+fn onchain_dedup_battery(_a: &mut Vec<i128>) -> String {
+	match catch_unwind(AssertUnwindSafe(|| dup_hash_onchain_probe(&mut vec![]))) {
+		Ok(v) if v == "2" => "0 1".to_string(),
+		other => {
+			if std::env::var("ORACLE_DEBUG").is_ok() {
+				eprintln!("onchain_dedup_battery: {:?} (wanted 2)", other.ok());
+			}
+			"1 1".to_string()
+		},
+	}
+}
+
 fn main() {
 	if std::env::var("ORACLE_DEBUG").is_err() { std::panic::set_hook(Box::new(|_| {})); }
 	let stdin = std::io::stdin();
@@ -2800,6 +2878,8 @@ fn main() {
 		let mut args: Vec<i128> = it.map(|x| x.parse::<i128>().expect("bad int")).collect();
 		let r = catch_unwind(AssertUnwindSafe(|| match name.as_str() {
 			"forward_probe" => forward_probe(&mut args),
+			"dup_hash_onchain_probe" => dup_hash_onchain_probe(&mut args),
+			"onchain_dedup_battery" => onchain_dedup_battery(&mut args),
 			"early_fail_back_probe" => early_fail_back_probe(&mut args),
 			"early_fail_back_battery" => early_fail_back_battery(&mut args),
 			"prev_config_probe" => prev_config_probe(&mut args),
